@@ -398,3 +398,46 @@ impl Corpus for Refs {
         ])
     }
 }
+
+/// Every field documented, so that the derive macro's own hash of each field
+/// name is observable as the keys of `_ty_doc().fields` (C15).
+#[derive(CandidType, Deserialize, Debug, Clone, PartialEq)]
+pub struct Documented {
+    /// plain
+    pub plain_field: u8,
+    /// raw identifier
+    pub r#type: u8,
+    /// renamed to a keyword
+    #[serde(rename = "record")]
+    pub renamed_kw: u8,
+    /// renamed to non-ASCII
+    #[serde(rename = "überfeld")]
+    pub renamed_unicode: u8,
+    /// renamed to something numeric-looking
+    #[serde(rename = "4294967295")]
+    pub renamed_numeric: u8,
+    /// renamed with odd characters
+    #[serde(rename = "a,b \"c\"\\")]
+    pub renamed_odd: u8,
+    /// one of a colliding pair (the other would be `diba`)
+    pub ccft2: u8,
+}
+pub const DOCUMENTED_NAMES: &[&str] = &["plain_field", "type", "record", "überfeld", "4294967295", "a,b \"c\"\\", "ccft2"];
+
+/// Variant tags documented likewise.
+#[derive(CandidType, Deserialize, Debug, Clone, PartialEq)]
+pub enum DocumentedEnum {
+    /// plain
+    Plain,
+    /// renamed
+    #[serde(rename = "日本語")]
+    Renamed(u8),
+    /// raw
+    r#Self_(u8),
+    /// struct-like
+    WithFields {
+        /// inner
+        inner_a: u8,
+    },
+}
+pub const DOCUMENTED_ENUM_NAMES: &[&str] = &["Plain", "日本語", "Self_", "WithFields"];
